@@ -16,6 +16,9 @@ and of the rejection theorem (`complement_reject`):
 * `body_step`, `loop_step`, `loop_step_err`, `loop_prefix` (the induction), `loop_end_lin`,
   `loop_end_circ`, `loop_end_lin2` (the n = 2 quirk; needs `Attrs.update_update_self`).
 * `finalGraph` and its read-off lemmas (`final_*`) for the corollary in `Properties/C19.lean`.
+* node keys starting at `k0` (`strandGraphFrom`, `specGraphFrom`): `complement_shift` — the model commutes
+  with renaming the keys `x ↦ x + k` of *any* residue graph — plus `strandGraphFrom_eq_shift`,
+  `specGraphFrom_eq_shift` give `complement_offset` / `complement_reject_offset` from the k0 = 0 theorems.
 -/
 import PolyplyVerif.Model.Dna
 
@@ -1263,5 +1266,323 @@ theorem complement_involutive (tbl : List (String × String))
     rw [← hmap2, ← hn2, List.map_map]; rfl
   have hm2 := mapM_eq_some_of_map _ _ _ hmap2'
   exact mapM_reverse_involutive tbl hinv names comps names2 hm1 hm2
+
+
+/-! ### equivariance of the model under renaming the node keys `x ↦ x + k` -/
+
+def shiftNode (k : Nat) (n : RNode) : RNode := { n with key := n.key + k }
+def shiftEdge (k : Nat) (e : REdge) : REdge := { e with u := e.u + k, v := e.v + k }
+
+theorem shiftKeys_eq (g : RGraph) (k : Nat) :
+    g.shiftKeys k = ⟨g.nodes.map (shiftNode k), g.edges.map (shiftEdge k), g.maxResid⟩ := rfl
+
+theorem beq_add_right (a b k : Nat) : (a + k == b + k) = (a == b) := by
+  rw [Bool.eq_iff_iff]
+  simp
+
+theorem node?_shift (g : RGraph) (k x : Nat) :
+    (g.shiftKeys k).node? (x + k) = (g.node? x).map (shiftNode k) := by
+  unfold RGraph.node?
+  rw [shiftKeys_eq]
+  simp only [List.find?_map]
+  have : ((fun n : RNode => n.key == x + k) ∘ shiftNode k) = (fun n => n.key == x) := by
+    funext n; simp [shiftNode, beq_add_right]
+  rw [this]
+
+theorem resid?_shift (g : RGraph) (k x : Nat) :
+    (g.shiftKeys k).resid? (x + k) = g.resid? x := by
+  unfold RGraph.resid?
+  rw [node?_shift]
+  cases g.node? x <;> simp [shiftNode]
+
+theorem resname?_shift (g : RGraph) (k x : Nat) :
+    (g.shiftKeys k).resname? (x + k) = g.resname? x := by
+  unfold RGraph.resname?
+  rw [node?_shift]
+  cases g.node? x <;> simp [shiftNode]
+
+theorem joins_shift (e : REdge) (k a b : Nat) : (shiftEdge k e).joins (a + k) (b + k) = e.joins a b := by
+  simp [REdge.joins, shiftEdge, beq_add_right]
+
+theorem edge?_shift (g : RGraph) (k a b : Nat) :
+    (g.shiftKeys k).edge? (a + k) (b + k) = (g.edge? a b).map (shiftEdge k) := by
+  unfold RGraph.edge?
+  rw [shiftKeys_eq]
+  simp only [List.find?_map]
+  have : ((fun e : REdge => e.joins (a + k) (b + k)) ∘ shiftEdge k) = (fun e => e.joins a b) := by
+    funext e; simp [joins_shift]
+  rw [this]
+
+theorem hasEdge_shift (g : RGraph) (k a b : Nat) :
+    (g.shiftKeys k).hasEdge (a + k) (b + k) = g.hasEdge a b := by
+  unfold RGraph.hasEdge
+  rw [edge?_shift]
+  cases g.edge? a b <;> rfl
+
+theorem neighbors_shift (g : RGraph) (k x : Nat) :
+    (g.shiftKeys k).neighbors (x + k) = (g.neighbors x).map (· + k) := by
+  unfold RGraph.neighbors
+  rw [shiftKeys_eq]
+  simp only [List.filterMap_map, List.map_filterMap]
+  congr 1
+  funext e
+  simp only [Function.comp, shiftEdge, beq_add_right]
+  by_cases h1 : e.u == x
+  · simp [h1]
+  · by_cases h2 : e.v == x
+    · simp [h1, h2]
+    · simp [h1, h2]
+
+theorem addNode_shift (g : RGraph) (k x : Nat) (nm : String) :
+    (g.shiftKeys k).addNode (x + k) nm = (g.addNode x nm).shiftKeys k := by
+  simp [RGraph.addNode, RGraph.shiftKeys]
+
+theorem addEdge_shift (g : RGraph) (k a b : Nat) :
+    (g.shiftKeys k).addEdge (a + k) (b + k) = (g.addEdge a b).shiftKeys k := by
+  unfold RGraph.addEdge
+  rw [hasEdge_shift]
+  by_cases h : g.hasEdge a b
+  · simp [h]
+  · simp [h, RGraph.shiftKeys]
+
+theorem updateEdgeAttrs_shift (g : RGraph) (k a b : Nat) (at' : Attrs) :
+    (g.shiftKeys k).updateEdgeAttrs (a + k) (b + k) at' = (g.updateEdgeAttrs a b at').shiftKeys k := by
+  unfold RGraph.updateEdgeAttrs
+  rw [shiftKeys_eq, shiftKeys_eq]
+  simp only [List.map_map, RGraph.mk.injEq, and_true, true_and]
+  apply List.map_congr_left
+  intro e _
+  simp only [Function.comp, joins_shift]
+  by_cases h : e.joins a b
+  · simp [h, shiftEdge]
+  · simp [h]
+
+
+def shiftSt (k : Nat) (s : St) : St :=
+  { g := s.g.shiftKeys k, corr := s.corr.map (fun p => (p.1 + k, p.2 + k)), total := s.total + k }
+
+theorem findSome?_map_result {α β γ} (f : α → Option β) (h : β → γ) (l : List α) :
+    l.findSome? (fun a => (f a).map h) = (l.findSome? f).map h := by
+  induction l with
+  | nil => rfl
+  | cons a l ih =>
+    simp only [List.findSome?_cons]
+    cases f a with
+    | none => simpa using ih
+    | some b => simp
+
+theorem iterStep_shift (g : RGraph) (k first src : Nat) :
+    iterStep (g.shiftKeys k) (first + k) (src + k) =
+      (iterStep g first src).map (fun p => (p.1 + k, p.2)) := by
+  unfold iterStep
+  rw [resid?_shift]
+  cases g.resid? src with
+  | none => rfl
+  | some rs =>
+    simp only
+    rw [neighbors_shift, List.findSome?_map, ← findSome?_map_result]
+    congr 1
+    funext nn
+    simp only [Function.comp, resid?_shift, beq_add_right]
+    cases g.resid? nn with
+    | none => rfl
+    | some rn =>
+      simp only
+      split
+      · rfl
+      · split <;> rfl
+
+theorem corrOf_shift (c : List (Nat × Nat)) (k x : Nat) :
+    corrOf (c.map (fun p => (p.1 + k, p.2 + k))) (x + k) = (corrOf c x).map (· + k) := by
+  unfold corrOf
+  simp only [List.find?_map]
+  have : ((fun p : Nat × Nat => p.1 == x + k) ∘ fun (p : Nat × Nat) => (p.1 + k, p.2 + k)) = (fun p => p.1 == x) := by
+    funext p; simp [beq_add_right]
+  rw [this]
+  cases c.find? (fun p => p.1 == x) <;> rfl
+
+theorem body_shift_tail (s : St) (k next : Nat) (comp : String)
+    (cprev : Nat) (attrs : Attrs) :
+    (match Option.map (fun x => x + k) (corrOf s.corr next) with
+      | none =>
+        (Except.ok
+          { g := (((s.g.shiftKeys k).addNode (s.total + k + 1) comp).addEdge (cprev + k)
+                    (s.total + k + 1)).updateEdgeAttrs (cprev + k) (s.total + k + 1) attrs,
+            corr := List.map (fun p => (p.fst + k, p.snd + k)) s.corr ++ [(next + k, s.total + k + 1)],
+            total := s.total + k + 1 } : Except String St)
+      | some cnext =>
+        Except.ok
+          { g := ((s.g.shiftKeys k).addEdge (cprev + k) cnext).updateEdgeAttrs (cprev + k) cnext attrs,
+            corr := List.map (fun p => (p.fst + k, p.snd + k)) s.corr, total := s.total + k + 1 }) =
+      Except.map (shiftSt k)
+        (match corrOf s.corr next with
+        | none =>
+          Except.ok
+            { g := ((s.g.addNode (s.total + 1) comp).addEdge cprev (s.total + 1)).updateEdgeAttrs cprev
+                      (s.total + 1) attrs,
+              corr := s.corr ++ [(next, s.total + 1)], total := s.total + 1 }
+        | some cnext =>
+          Except.ok
+            { g := (s.g.addEdge cprev cnext).updateEdgeAttrs cprev cnext attrs,
+              corr := s.corr, total := s.total + 1 }) := by
+  have e1 : s.total + k + 1 = s.total + 1 + k := by omega
+  cases corrOf s.corr next with
+  | none =>
+    simp only [Option.map_none, Except.map]
+    rw [e1, addNode_shift, addEdge_shift, updateEdgeAttrs_shift]
+    simp [shiftSt]
+  | some cnext =>
+    simp only [Option.map_some, Except.map]
+    rw [addEdge_shift, updateEdgeAttrs_shift, e1]
+    rfl
+
+theorem body_shift (tbl : List (String × String)) (s : St) (k prev next : Nat) :
+    body tbl (shiftSt k s) (prev + k) (next + k) = (body tbl s prev next).map (shiftSt k) := by
+  unfold body
+  simp only [shiftSt, resname?_shift, corrOf_shift, edge?_shift]
+  cases s.g.resname? next with
+  | none => rfl
+  | some rn =>
+    simp only
+    cases lookup tbl rn with
+    | none => rfl
+    | some comp =>
+      simp only
+      cases corrOf s.corr prev with
+      | none => rfl
+      | some cprev =>
+        simp only [Option.map_some]
+        cases s.g.edge? prev next with
+        | none => exact body_shift_tail s k next comp cprev []
+        | some e => exact body_shift_tail s k next comp cprev e.attrs
+
+theorem loop_shift (tbl : List (String × String)) (k first fuel src : Nat) (s : St) :
+    loop tbl (first + k) fuel (src + k) (shiftSt k s) = (loop tbl first fuel src s).map (shiftSt k) := by
+  induction fuel generalizing src s with
+  | zero => rfl
+  | succ fuel ih =>
+    rw [loop, loop]
+    have e0 : (shiftSt k s).g = s.g.shiftKeys k := rfl
+    rw [e0, iterStep_shift]
+    cases iterStep s.g first src with
+    | none => rfl
+    | some p =>
+      obtain ⟨nn, stop⟩ := p
+      simp only [Option.map_some]
+      rw [body_shift]
+      cases body tbl s src nn with
+      | error e => rfl
+      | ok s' =>
+        simp only [Except.map]
+        cases stop with
+        | true => rfl
+        | false => exact ih nn s'
+
+/-- **Equivariance**: renaming the node keys of *any* residue graph by `x ↦ x + k` commutes with the
+model of `complement_dsDNA` (the code compares resids, looks names up and computes new keys as
+`last key + 1, + 2, …`; it never looks at the absolute value of a key). -/
+theorem complement_shift (tbl : List (String × String)) (g : RGraph) (k : Nat) :
+    complement tbl (g.shiftKeys k) = (complement tbl g).map (·.shiftKeys k) := by
+  unfold complement
+  have hl : (g.shiftKeys k).nodes.getLast? = g.nodes.getLast?.map (shiftNode k) := by
+    rw [shiftKeys_eq]; simp [List.getLast?_map]
+  rw [hl]
+  cases g.nodes.getLast? with
+  | none => rfl
+  | some last =>
+    simp only [Option.map_some, shiftNode]
+    cases lookup tbl last.resname with
+    | none => rfl
+    | some comp =>
+      simp only
+      have e1 : last.key + k + 1 = last.key + 1 + k := by omega
+      have hs : ({ g := (g.shiftKeys k).addNode (last.key + k + 1) comp,
+                   corr := [(last.key + k, last.key + k + 1)], total := last.key + k + 1 } : St) =
+          shiftSt k { g := g.addNode (last.key + 1) comp, corr := [(last.key, last.key + 1)],
+                      total := last.key + 1 } := by
+        simp [shiftSt, e1, addNode_shift]
+      have hlen : (g.shiftKeys k).nodes.length = g.nodes.length := by simp [RGraph.shiftKeys]
+      rw [hs, hlen, loop_shift]
+      cases loop tbl last.key (g.nodes.length + 1) last.key
+          { g := g.addNode (last.key + 1) comp, corr := [(last.key, last.key + 1)], total := last.key + 1 } with
+      | error e => rfl
+      | ok s => rfl
+
+
+theorem strandGraphFrom_eq_shift (k0 : Nat) (names : List String) (labels : List Attrs) (circ : Option Attrs) :
+    strandGraphFrom k0 names labels circ = (strandGraph names labels circ).shiftKeys k0 := by
+  unfold strandGraphFrom strandGraph RGraph.shiftKeys
+  simp only [List.map_append, List.map_map, RGraph.mk.injEq, and_true]
+  constructor
+  · apply List.map_congr_left
+    intro p _
+    simp [Nat.add_comm]
+  · congr 1
+    · congr 1
+      · split <;> simp [Nat.add_comm]
+      · cases circ <;> simp [Nat.add_comm]
+    · apply List.map_congr_left
+      intro i _
+      simp [Nat.add_comm]
+
+theorem strandGraphFrom_zero (names : List String) (labels : List Attrs) (circ : Option Attrs) :
+    strandGraphFrom 0 names labels circ = strandGraph names labels circ := by
+  unfold strandGraphFrom strandGraph
+  simp
+
+theorem specGraphFrom_eq_shift (k0 : Nat) (tbl : List (String × String)) (names : List String)
+    (labels : List Attrs) (circ : Option Attrs) :
+    specGraphFrom k0 tbl names labels circ = (specGraph tbl names labels circ).map (·.shiftKeys k0) := by
+  unfold specGraphFrom specGraph
+  cases names.reverse.mapM (lookup tbl) with
+  | none => rfl
+  | some comps =>
+    simp only [Option.map_some, Option.some.injEq]
+    rw [strandGraphFrom_eq_shift]
+    unfold RGraph.shiftKeys
+    simp only [List.map_append, List.map_map, RGraph.mk.injEq, and_true]
+    constructor
+    · congr 1
+      apply List.map_congr_left
+      intro p _
+      simp [Nat.add_comm]
+    · congr 1
+      · congr 1
+        apply List.map_congr_left
+        intro i _
+        simp; omega
+      · cases circ <;> simp [Nat.add_comm]
+
+theorem specGraphFrom_zero (tbl : List (String × String)) (names : List String)
+    (labels : List Attrs) (circ : Option Attrs) :
+    specGraphFrom 0 tbl names labels circ = specGraph tbl names labels circ := by
+  unfold specGraphFrom specGraph
+  rw [strandGraphFrom_zero]
+  simp
+
+/-- Goal 1 for node keys starting at any `k0` -/
+theorem complement_offset (k0 : Nat) (tbl : List (String × String)) (names : List String)
+    (labels : List Attrs) (circ : Option Attrs)
+    (hn : 1 ≤ names.length) (hc : circ.isSome → 3 ≤ names.length)
+    (hk : ∀ nm ∈ names, (lookup tbl nm).isSome) :
+    ∃ g, specGraphFrom k0 tbl names labels circ = some g ∧
+      complement tbl (strandGraphFrom k0 names labels circ) = .ok g := by
+  refine ⟨(finalGraph tbl names labels circ).shiftKeys k0, ?_, ?_⟩
+  · rw [specGraphFrom_eq_shift, specGraph_eq_final tbl names labels circ hk]; rfl
+  · rw [strandGraphFrom_eq_shift, complement_shift, complement_eq_final tbl names labels circ hn hc hk]; rfl
+
+/-- Goal 2 for node keys starting at any `k0` -/
+theorem complement_reject_offset (k0 : Nat) (tbl : List (String × String)) (names : List String)
+    (labels : List Attrs) (circ : Option Attrs)
+    (hn : 1 ≤ names.length) (hc : circ.isSome → 3 ≤ names.length)
+    (hbad : ∃ nm ∈ names, lookup tbl nm = none) :
+    complement tbl (strandGraphFrom k0 names labels circ) = .error "unknown-resname" := by
+  rw [strandGraphFrom_eq_shift, complement_shift, complement_reject tbl names labels circ hn hc hbad]; rfl
+
+theorem specGraphFrom_congr (k0 : Nat) (t1 t2 : List (String × String))
+    (h : ∀ nm, lookup t1 nm = lookup t2 nm)
+    (names : List String) (labels : List Attrs) (circ : Option Attrs) :
+    specGraphFrom k0 t1 names labels circ = specGraphFrom k0 t2 names labels circ := by
+  rw [specGraphFrom_eq_shift, specGraphFrom_eq_shift, specGraph_congr t1 t2 h]
 
 end PolyplyVerif.Proofs.Dna
